@@ -105,6 +105,8 @@ func Build(d any, h Host) (interface{}, error) {
 		return nil, nil
 	case "nilptr":
 		return (*S1)(nil), nil
+	case "nilbig":
+		return (*decimal.Big)(nil), nil
 	case "bool":
 		return t[1].(bool), nil
 	case "str":
@@ -237,6 +239,20 @@ func Build(d any, h Host) (interface{}, error) {
 				return nil, err
 			}
 			out = append(out, x)
+		}
+		return out, nil
+	case "ints":
+		l, ok := t[1].([]any)
+		if !ok {
+			return nil, fmt.Errorf("bad ints %v", d)
+		}
+		out := make([]int, len(l))
+		for i, x := range l {
+			n, ok := x.(int64)
+			if !ok {
+				return nil, fmt.Errorf("bad ints element %v", x)
+			}
+			out[i] = int(n)
 		}
 		return out, nil
 	case "strs":
